@@ -462,8 +462,11 @@ class StoreModel:
             if o.persisting:
                 self.store[self.loc(o)] = want
                 self.writer[self.loc(o)] = id(mch)
+                lvl_ = self.levels.get((self._cur_proc, fullname), 10)
                 self.last_run[self.loc(o)] = {'seq': seq, 'obj': o, 'chain': mch.owner(o), 'fullname': fullname,
-                                              'level': self.levels.get((self._cur_proc, fullname), 10)}
+                                              'level': 10 if lvl_ is None else lvl_}
+                if lvl_ is None:
+                    self.last_run[self.loc(o)]['log_valid'] = False   # (threshold unknown: nothing asserted about the log)
                 self.runs_per_location[self.loc(o)] = self.runs_per_location.get(self.loc(o), 0) + 1
             else:
                 self.runs_per_memobj[id(o)] = self.runs_per_memobj.get(id(o), 0) + 1
@@ -504,6 +507,11 @@ class StoreModel:
             except model.ModelError as e:
                 if err is None:
                     raise Violation('construction-should-fail:' + e.kind, dict(info))
+                # the failed construction built SOME of its tasks before it gave up (which ones is an implementation
+                # detail), and building a task sets its process-wide logger to DEBUG: thresholds set by the user in
+                # this process are unknown from here on, until set again or reset by a successful construction
+                for k_ in [k for k in self.levels if k[0] == proc]:
+                    self.levels[k_] = None
                 return {'kind': 'invalid'}
             if err is not None:
                 raise Violation('construction-raised', dict(info, error=err))
